@@ -12,9 +12,11 @@ from common import Ctx, Finding, Outcome
 
 sys.path.insert(0, str(common.VERIF / "tools"))
 import gen_codata  # noqa: E402
+import c02_src  # noqa: E402  (translator of context.py -> Gen/ContextSrc.lean)
 
 PROPERTY = "C02"
-LEAN_TARGETS = ["QcelVerif.Props.C02", "QcelVerif.Lemmas.Dec", "QcelVerif.Lemmas.DecBounds", "QcelVerif.Props.C02Dec", "QcelVerif.Driver.C02"]
+LEAN_TARGETS = ["QcelVerif.Props.C02", "QcelVerif.Lemmas.Dec", "QcelVerif.Lemmas.DecBounds", "QcelVerif.Props.C02Dec",
+                "QcelVerif.Model.ConstantsSrc", "QcelVerif.Lemmas.ConstantsSrc", "QcelVerif.Props.C02Src", "QcelVerif.Driver.C02"]
 DRIVER = "QcelVerif/Driver/C02.lean"
 _C = "QcelVerif.Constants."
 THEOREMS = [
@@ -56,15 +58,45 @@ THEOREMS = [
     (_C + "aliases_close_2014", "shipped 2014 instance of the 2e-27 bound for all 27 aliases, derived from the digit-for-digit clause of aliases_follow_spec_2014 through the general theorem (not a per-row evaluation)"),
     (_C + "aliases_close_2018", "same for 2018"),
     (_C + "derived_close_2018", "same for the 3 derived legacy constants of 2018"),
+    # wave-5 extension: the definitions regenerated from context.py by harness/c02_src.py (Props/C02Src.lean, Lemmas/ConstantsSrc.lean)
+    (_C + "source_translated", "the translator accepted context.py (otherwise a stub is generated and every source theorem below fails to build)"),
+    (_C + "mangle_src_eq_model", "GENERAL, every string: str.translate with the table read from `_transtable = str.maketrans(...)` = the model's mangle (all 128 ASCII characters kernel-evaluated; other characters untouched by both because every table key is ASCII)"),
+    (_C + "mangle_src_eq_model_ascii", "the same per character, for every ASCII character"),
+    (_C + "renames_src_eq_model", "the rename dict of the source (2018 path, dict order) = the model's 26-entry renameMap; the 2014 path runs no rename loop"),
+    (_C + "derived_src_eq_model", "the 3 tuples the 2018 path first assigns to `aliases` = the model's derived2018 (name, units, comment literally; expression trees equal after lower-casing constant names; pi literal of _get_pi inlined); none on the 2014 path"),
+    (_C + "lowerPc_same_value", "GENERAL: lower-casing the constant names inside a definition never changes its Decimal (any table, any fuel)"),
+    (_C + "extras_src_eq_model", "GENERAL in the table: the literal-key insertion of the source = the model's calorie-joule relationship (key, label, J, Decimal('4.184'), comment, no doi), both contexts"),
+    (_C + "dataset_src_eq_model", "each context imports its own year's table (doi and constants from the same one); default argument and module singleton are CODATA2014"),
+    (_C + "aliases_src_eq_spec_symbolic", "both sets: the 27 source tuples match the 27 specification entries in order by name/units/comment, and for 26 of them the normalised expression tree of the source IS the normalised tree of the documentation (lower-cased names, the two operands of each product in a fixed order, hartree2kJmol/cal2J inlined, calorie -> literal, legacy name -> 2018 name, derived constant -> its formula); no constant value involved; excluded: dipmom_au2debye"),
+    (_C + "regrouped_differs", "the exclusion is necessary: for dipmom_au2debye the source tree (a*1.E21)/b differs from the documented a/(b*1.E-21) in both sets (value equality covers it)"),
+    (_C + "sym_eq_same_value", "GENERAL, any table consistent with the normalisation environment: two definitions with equal normalised trees evaluate to the same Decimal whenever both evaluate"),
+    (_C + "aliases_src_eq_spec_any_table", "GENERAL in the constant values: on every consistent table each of the 26 symbolically equal aliases gets the same Decimal from the code's arithmetic as from the documented formula"),
+    (_C + "envOk_shipped", "both shipped contexts are consistent with their normalisation environment (non-vacuity of the general theorem; kernel)"),
+    (_C + "aliases_src_eq_spec_value_2014", "2014, all 27 incl. the regrouped one: source expression evaluated on the table the code evaluates it on (before any alias is inserted) = documented formula on the finished context, digit for digit (kernel, regenerated tables)"),
+    (_C + "aliases_src_eq_spec_value_2018", "same for 2018 (table = constants + calorie + 26 legacy names) and for the 3 derived constants against derived2018"),
+    (_C + "context_src_eq_model_2014", "the whole pc built from the source-derived pieces in the code's staging = the model's pc (every key, order, label, units, Decimal, comment, doi), 2014"),
+    (_C + "context_src_eq_model_2018", "same for 2018: all 30 tuples evaluated on the renamed table before any insertion = derived first, then documented formulas on the table holding them"),
+    (_C + "ctx_src_eq_model_2014", "hence the whole context incl. attributes (source translate table) = the model's, 2014"),
+    (_C + "ctx_src_eq_model_2018", "same for 2018"),
+    (_C + "aliasSrc_roundings", "every source-derived definition (27 + 30) performs at most 3 rounded operations (kernel evaluation of the translated trees only)"),
+    (_C + "aliases_src_stored_2014", "2014: every stored alias = its SOURCE expression in prec-28 decimal arithmetic digit for digit, also when re-evaluated on the finished context, with the tuple's label/units/comment and no doi"),
+    (_C + "aliases_src_stored_2018", "same for the 30 tuples of 2018"),
+    (_C + "aliases_src_close_2014", "aliases_close_2014 restated for the source-derived definitions: within 2e-27 relative of the exact rational value of the SOURCE formula, via the general theorem aliasClose_of_aliasOk"),
+    (_C + "aliases_src_close_2018", "aliases_close_2018 + derived_close_2018 restated for the 30 source-derived definitions"),
+    (_C + "aliases_src_exact_def_2014", "2014: each source-derived alias is within 2e-27 relative of the exact rational value of its DOCUMENTED definition (general rounding theorem on the source tree + kernel-checked identity in Q between the source formula and the documented one)"),
+    (_C + "aliases_src_exact_def_2018", "same for 2018 and for the 3 derived constants"),
+    (_C + "shipped_theorems_src_2014", "constants_retrievable / aliases_follow_spec / aliases_close / attrs_and_floats 2014 hold of the source-derived context"),
+    (_C + "shipped_theorems_src_2018", "the 2018 ones incl. renames_2018, legacy_derived_2018, derived_close_2018 hold of the source-derived context"),
 ]
-TRANSLATORS = [gen_codata.main]
+TRANSLATORS = [gen_codata.main, c02_src.gen_context_src]
 TRUSTED_BASE = [
     "Lean 4.33 kernel (decide +kernel evaluation over the generated tables and the model's context construction; no native_decide); axioms audited per theorem",
     "tools/gen_codata.py: re-encodes nist_201{4,8}_codata.py (ast.literal_eval), codata-201{4,8}.txt (column slices only) and the SRD-121 JSON as packed naturals; cross-checked because the Lean driver reads the same generated tables and is compared with the running implementation on every key",
     "hand-written model Model/Constants.lean of context.py:72-245 and Model/Dec.lean of Python decimal (prec 28, ROUND_HALF_EVEN) + float(Decimal); tied by exhaustive correspondence (every key x 4 casings x 4 access paths x 3 contexts, key order, attribute set) and a random + structured decimal-arithmetic / float-conversion stream against CPython (structured classes: 28+ and 2000+ digit coefficients, exact ties at the 29th digit, carries to the next power of ten, exponent gaps around and far beyond the precision, results dropping below a power of ten, signed zeros, sticky-digit and exact quotients; their distribution is printed in the evidence under dec:*)",
     "that Model/Dec.lean IS CPython's decimal remains differential (the stream above); what is now PROVED about the model for all operands is that each of mul/div/add/sub is correctly rounded (<= 5e-28 relative), exact whenever the exact result has <= 28 significant digits, and that errors compose along the alias formulas as n*u/(1-n*u)",
     "Mathlib (ordered-field lemmas, Nat.log, Bernoulli's inequality, ring/linarith/nlinarith/field_simp/norm_num) in Lemmas/DecBounds.lean and Props/C02Dec.lean only; Model files stay core-only",
-    "the alias specification (Model/Constants.lean aliasSpec) is a hand transcription of the documentation block context.py:247-271",
+    "the alias specification (Model/Constants.lean aliasSpec) is a hand transcription of the documentation block context.py:247-271; the CODE's alias arithmetic, rename dict, derived constants, calorie insertion and translate table are no longer only tied to it differentially: they are regenerated from the source (next item) and proved equal to the model's",
+    "harness/c02_src.py: reads context.py by `ast` (never imports it), executes __init__ symbolically per context string and emits Gen/ContextSrc.lean (expression trees over pc / Decimal literal / mul / div; anything else - +, -, **, floats, Decimal(float), upper-case or computed keys, other statements touching self.pc, another staging - is refused and breaks the obligations). Trusted for: the reading of Python's evaluation order (all tuples evaluated before the insertion loop), int operand -> Decimal conversion being exact, and the shape checks of the loops it does not translate (constant loop, rename-loop body, insertion loop, attribute loop are compared structurally with the statements the hand-written model transcribes). Cross-checked: the driver evaluates the generated trees and is compared three-way (source tree / source-built context / specification) with the running implementation on every computed entry, and the source translate table on every label, every ASCII character and random strings",
     "the oracle's own reading of the raw NIST tables and its own alias formulas in exact fractions",
     "CPython decimal / float(str) (checked digit-for-digit / bit-for-bit against the model on every value the run touches)",
 ]
@@ -75,13 +107,16 @@ ASSUMPTIONS = [
     "pydantic Datum construction/validation is not modelled (only label, units, data, comment, doi are compared)",
     "construction sequences: single process, single thread; orders of up to 5 constructions per sequence (all earlier sequences' contexts remain part of the process history); a change of an earlier instance that leaves it conforming to the property is recorded in the evidence notes, not reported as a violation",
     "attribute access is modelled for the float attributes set by the constant loop only (pc, doi, name, year, raw_codata, _ureg excluded)",
+    "source translation is AST-shaped: a rewrite of context.py that keeps every stored value but leaves the translated language (helper variables, +/-, another loop shape or staging) or re-associates a formula (other than swapping the two operands of a product, which normalisation absorbs) breaks an obligation of Props/C02Src.lean and is reported as `VIOLATION ... no-failing-input-found` naming that obligation, although the property still holds; the remedy is to extend the translator / the `regrouped` list (value equality then still has to hold), never the oracle",
 ]
 RULE = (
     "exhaustive: for CODATA2014, CODATA2018 and the default singleton, every NIST row name (read by the oracle from raw_data/nist_data/codata-*.txt), "
     "the calorie-joule relationship, all 27 aliases, the 26 legacy names and 3 derived constants (2018), plus every further key the implementation holds, "
     "x {exact, lower, upper, random mixed case} x {get, get(return_tuple), attribute (name mangled by the harness), pc[...]}; "
     "plus pc key order and attribute-name set per context, near-miss / foreign names (KeyError paths), and a seeded stream of random Decimal "
-    "add/sub/mul/div and float(Decimal) cases against CPython, followed by a structured decimal stream drawn uniformly from the classes "
+    "add/sub/mul/div and float(Decimal) cases against CPython; three-way source stream: for every computed entry (27 aliases, calorie, and in 2018 the 26 legacy names and 3 derived constants) of the three contexts the Decimal of "
+    "(source tree evaluated by the driver | entry of the source-built context | entry of the specification-built context) against the implementation's stored Decimal, and the source translate table against "
+    "str.translate(_transtable) on every label of every context, each of the 128 ASCII characters and random ASCII strings rich in the table's characters; followed by a structured decimal stream drawn uniformly from the classes "
     "long (28-90 digit coefficients), tie (exact result ends in 5/50/500.. right after the 28th digit, built as operand*1, n*f/f, c*10^k + half, products), "
     "carry (28 nines then >= half: the rounded coefficient reaches 10^28), expgap (add/sub, exponent gaps 0..3000 incl. 26-32), cross-down (10^k minus something tiny), "
     "zero (signed zeros of assorted exponents against zeros and long operands), huge (1999-3100 digit coefficients), div-sticky (inexact quotient whose truncated expansion ends in 0 or 5), "
@@ -97,7 +132,8 @@ RULE = (
     "stored lower-case key spelled exactly, or the entry is computed (alias / legacy / derived), or an arithmetic case, or a construction in a sequence."
 )
 LEVEL_TEXT = (
-    "proof by kernel evaluation over the complete finite tables (shipped = NIST for both sets; context contents; aliases = spec; renames; floats nearest) "
+    "REGENERATED FROM SOURCE (wave-5): the 27+30 alias tuples with their Decimal expression trees, the rename dict, the three derived constants, the calorie insertion, the translate table and the data-table / default-context choice are translated from context.py on every run; proved: translate table = mangle on every string; rename dict, derived constants, calorie insertion = the model's; 26 of 27 aliases symbolically equal to the documentation after normalisation (hence equal Decimals on ANY consistent table of constants), the regrouped dipmom_au2debye and all others digit for digit on the shipped tables; the whole context built from the source-derived pieces in the code's own staging equals the model's context, so every table theorem holds of it; each source-derived alias within 2e-27 of its documented exact rational definition through the general rounding theorem. Still hand-modelled and differential: the constant loop, the bodies of the rename / insertion / attribute loops (shape-checked by the translator), get, Datum. "
+    "Otherwise: proof by kernel evaluation over the complete finite tables (shipped = NIST for both sets; context contents; aliases = spec; renames; floats nearest) "
     "+ general case-insensitivity lemma; the model is tied to context.py by exhaustive correspondence, the alias spec to the code digit-for-digit. "
     "The decimal model's error analysis is now proved in general (all operands, no table): each of Dec.mul/div/add/sub is correctly rounded (relative error <= 5e-28; only a zero divisor is excluded, and refused), "
     "exact whenever the exact result has <= 28 significant digits, every result fits 28 digits, and along any alias formula over ARBITRARY constant values the error is <= n*u/(1-n*u) (n = mul/div nodes, n <= 3 for all 30 shipped definitions), "
@@ -777,6 +813,16 @@ def impl_line(env: Env, line: str) -> str:
         return "ok " + ",".join(hexs(k) for k in env.ctxs[p[1]].pc)
     if p[0] == "A":
         return "ok " + ",".join(hexs(a) for a, v in vars(env.ctxs[p[1]]).items() if isinstance(v, float))
+    if p[0] == "S":
+        name = bytes.fromhex(p[2]).decode()
+        q = env.ctxs[p[1]].pc.get(name.lower())
+        t = "none" if q is None else (dec_triple(q.data) if isinstance(q.data, Decimal) else f"NOT-DECIMAL {type(q.data).__name__} {q.data!r}")
+        is_tuple = name in ALIAS_NAMES or (env.specs[p[1]].year == 2018 and name in DERIVED_NAMES)
+        return f"ok e {t if is_tuple else 'none'} | s {t} | m {t}"
+    if p[0] == "M":
+        t = bytes.fromhex(p[1]).decode()
+        h = hexs(t.translate(env.cls._transtable))
+        return f"ok {h} {h}"
     if p[0] == "D":
         a, b = bytes.fromhex(p[2]).decode(), bytes.fromhex(p[3]).decode()
         try:
@@ -890,6 +936,18 @@ def build_cases(env: Env, rng, ctx: Ctx):
                 cases.append({"ctx": cn, "mode": mode, "name": o, "tag": "outside", "roles": ["exact"], "sent": mangle(o) if mode == "attr" else o})
         cases.append({"line": f"K {cn}"})
         cases.append({"line": f"A {cn}"})
+    # three-way source stream: source tree | source-built context | specification-built context  vs  the implementation
+    for cn in ("2014", "2018", "default"):
+        for name, tag in env.specs[cn].names():
+            if tag != "nist":
+                cases.append({"line": f"S {cn} {hexs(name)}", "tag": tag})
+    labels = sorted({q.label for c in env.ctxs.values() for q in c.pc.values()})
+    texts = labels + [chr(i) for i in range(128)]
+    alphabet = " -/{.,()}" * 3 + "abcXYZ019_^pP[]|\\~"
+    for _ in range(ctx.scale(300, 3000)):
+        texts.append("".join(rng.choice(alphabet) for _ in range(rng.randint(1, 24))))
+    for t in texts:
+        cases.append({"line": f"M {hexs(t)}"})
     # decimal arithmetic / float conversion stream (ties Model/Dec.lean to CPython)
     def rdec():
         n = rng.choice([1, 2, 3, 5, 9, 10, 14, 20, 27, 28, 29, 30, 36, 40])
@@ -972,7 +1030,21 @@ def run(ctx: Ctx) -> Outcome:
             out.count("seq-sweep-mode:" + case["mode"])
         elif "line" in case:
             kindc = case["line"].split(" ")[0]
-            out.count("stream:" + {"K": "key-order", "A": "attribute-set", "D": "decimal-op", "F": "float-conversion"}[kindc])
+            out.count("stream:" + {"K": "key-order", "A": "attribute-set", "D": "decimal-op", "F": "float-conversion",
+                                   "S": "source-three-way", "M": "source-translate-table"}[kindc])
+            if kindc == "S":
+                out.count("src-entry:" + case.get("tag", "?"))
+                out.nontrivial(case["line"])
+                if ml is not None and ml != got and ml.startswith("ok e ") and got.startswith("ok e "):
+                    mv = dict(x.split(" ", 1) for x in ml[3:].split(" | "))
+                    gv = dict(x.split(" ", 1) for x in got[3:].split(" | "))
+                    for k_, what in (("e", "source-tree"), ("s", "source-built-context"), ("m", "specification-built-context")):
+                        if mv.get(k_) != gv.get(k_):
+                            out.count("src-disagrees:" + what)
+            if kindc == "M":
+                out.nontrivial(case["line"])
+                t_ = bytes.fromhex(case["line"].split(" ")[1]).decode()
+                out.count("translate:" + ("single-ascii-char" if len(t_) == 1 else "changed" if mangle(t_) != t_ else "unchanged"))
             if kindc in "DF":
                 out.count("outcome:" + ("arith-ok" if got.startswith("ok") else "arith-error"))
                 out.nontrivial(case["line"])
@@ -1002,6 +1074,8 @@ def run(ctx: Ctx) -> Outcome:
         + "; NIST rows read by the oracle: 2014=%d, 2018=%d" % (len(env.specs["2014"].rows), len(env.specs["2018"].rows))
     )
     out.notes.append("translator cross-check: the Lean driver built both contexts from the generated tables and was compared with the implementation on every key, in key order")
+    out.notes.append("source translator cross-check (harness/c02_src.py -> Gen/ContextSrc.lean): every computed entry three-way (source tree | source-built context | specification-built context) "
+                     "against the implementation's stored Decimal; source translate table against str.translate(_transtable)")
     return out
 
 
